@@ -278,17 +278,28 @@ def _classify(res, unit, r):
         spans = d.get("spans", [])
         prim = [s for s in spans if s.get("is_primary")]
         sec = [s for s in spans if not s.get("is_primary")]
-        # which function is being verified: the span that lies in a body (not in a clause)
         site_fn = None
         clause_hit = None
-        for s in prim + sec:
-            q, label = _locate(unit, s["line_start"])
-            if label is not None and clause_hit is None:
+        if "precondition not satisfied" in msg and prim:
+            # primary span = the call site; secondary = the callee's failed requires clause
+            q, label = _locate(unit, prim[0]["line_start"])
+            site_fn = q
+            if label == "proof_hints":
                 clause_hit = (q, label)
-            if label is None and q is not None and site_fn is None:
-                site_fn = q
-        if site_fn is None and clause_hit is not None:
-            site_fn = clause_hit[0]
+            for s in sec:
+                q2, l2 = _locate(unit, s["line_start"])
+                if clause_hit is None and q2 is not None and q2 != site_fn:
+                    clause_hit = (q2, l2 or "requires")
+        else:
+            # which function is being verified: the span that lies in a body (not in a clause)
+            for s in prim + sec:
+                q, label = _locate(unit, s["line_start"])
+                if label is not None and clause_hit is None:
+                    clause_hit = (q, label)
+                if label is None and q is not None and site_fn is None:
+                    site_fn = q
+            if site_fn is None and clause_hit is not None:
+                site_fn = clause_hit[0]
         if site_fn is None:
             site_fn = "?"
         if _is_limit(msg):
